@@ -52,8 +52,8 @@ class C12(Check):
     rule = (
         "databases with 1-3 recordings (1-3 ECU models = seeds x randomness parameters, an ECU may be recorded twice) x histories of 1-60 requests over session "
         "changes, seed/key pairs (right / wrong key), resets, reads, writes, routines, DTC reads, repeated identical requests x selection {ECU name, "
-        "properties, both, none (single recording)} x replay engine {DBUDSServer direct, real DbVirtualECU command on SimNet} x database latency; the "
-        "'silent rows' configuration additionally keeps suppress-bit requests and loses drawn replies on the network (rows without reply) and is counted separately. non-trivial = the replayed "
+        "properties, both, none (single recording)} x replay engine {DBUDSServer direct, real DbVirtualECU command on SimNet} x database latency x discovery run that registered the addresses first x ECUs reachable under two addresses x wall clock stepped back while recording; the "
+        "'silent rows' configuration additionally keeps suppress-bit requests and loses drawn replies on the network (rows without reply) or delays them beyond the tester's timeout (rows with a foreign reply) and is counted separately. non-trivial = the replayed "
         "history contains a state change or a repeated request with different answers; distinct = (selection, engine, sequence of reply classes)."
     )
     assumptions = [
